@@ -61,11 +61,11 @@ var c13EdgeLens = []int{0, 0, 1, 1, 2, 3,
 // C13Len draws a label/data length: concentrated on 0,1,2,3, 160..170,
 // 328..336 (one and two rate blocks with every offset the 2 framing bytes
 // and the 4-byte length prefix can introduce), small, or uniform <= 700.
-// With huge set, very rarely one of C13HugeLens.
+// With huge set, 4% one of C13HugeLens (callers ration these).
 func C13Len(t *rapid.T, label string, huge bool) (int, string) {
 	k := rapid.IntRange(0, 99).Draw(t, label+"_lk")
 	switch {
-	case huge && k == 0:
+	case huge && k < 4:
 		return rapid.SampledFrom(C13HugeLens).Draw(t, label+"_lh"), "huge"
 	case k < 50:
 		return rapid.SampledFrom(c13EdgeLens).Draw(t, label+"_le"), "edge"
